@@ -164,8 +164,46 @@ func historyCheck(o *outcome) {
 	}
 }
 
+// One Parser serves every request of the process, as a caller who keeps a Parser would use it: the AST it handed out for
+// the previous request must read the same after it has parsed (or failed to parse) the next one.
+var (
+	sharedParser  = jmespath.NewParser()
+	sharedPrev    jmespath.ASTNode
+	sharedPrevStr string
+	sharedHave    bool
+)
+
+func sharedParserCheck(expr string, o *outcome) {
+	var node jmespath.ASTNode
+	var perr error
+	if p, _ := safely(func() { node, perr = sharedParser.Parse(expr) }); p {
+		o.flags = append(o.flags, "sharedparserpanic")
+		sharedParser, sharedHave = jmespath.NewParser(), false
+		return
+	}
+	if sharedHave {
+		var now string
+		if p, _ := safely(func() { now = jmespath.VerifDumpAST(sharedPrev) }); p || now != sharedPrevStr {
+			o.flags = append(o.flags, "astchanged:was="+truncate(sharedPrevStr, 80)+":now="+truncate(now, 80))
+		}
+	}
+	sharedHave = perr == nil
+	if perr == nil {
+		sharedPrev, sharedPrevStr = node, jmespath.VerifDumpAST(node)
+		// and the reused Parser agrees with a fresh one
+		if fresh, ferr := jmespath.NewParser().Parse(expr); ferr != nil || jmespath.VerifDumpAST(fresh) != sharedPrevStr {
+			o.flags = append(o.flags, "sharedparserdiff")
+		}
+	} else if _, ferr := jmespath.NewParser().Parse(expr); ferr == nil {
+		o.flags = append(o.flags, "sharedparserdiff")
+	}
+}
+
 func doSearch(expr string, docText string, unordered bool) (o outcome) {
 	defer func() {
+		if len(expr) < 2000 {
+			sharedParserCheck(expr, &o)
+		}
 		if len(histKept) < 6 && strings.HasPrefix(o.base, "ok ") && !unordered && !mayObserveOrder(expr) && len(docText) < 4000 {
 			histKept = append(histKept, [3]string{expr, docText, o.base})
 		}
